@@ -315,6 +315,14 @@ class Theory:
             with macro.level <= self.check_level.
         
         """
+        # The identifier of an item must be its position in the proof: the dependency
+        # rule below is stated on identifiers, while cited items are looked up by position.
+        try:
+            if any(i < 0 for i in seq.id.id) or prf.find_item(seq.id) is not seq:
+                raise CheckProofException("id %s does not match position" % seq.id)
+        except ProofStateException:
+            raise CheckProofException("id %s does not match position" % seq.id)
+
         if seq.rule == "":
             # Empty line in the proof
             return None
@@ -361,9 +369,12 @@ class Theory:
                 if not seq.id.can_depend_on(prev):
                     raise CheckProofException("id %s cannot depend on %s" % (seq.id, prev))
                 try:
-                    prev_ths.append(prf.find_item(prev).th)
+                    prev_item = prf.find_item(prev)
                 except ProofStateException:
                     raise CheckProofException("previous item not found")
+                if prev_item.id != prev or prev_item.rule == "":
+                    raise CheckProofException("previous item %s is not a checked step" % prev)
+                prev_ths.append(prev_item.th)
             
             for prev, prev_th in zip(seq.prevs, prev_ths):
                 if prev_th is None:
@@ -432,6 +443,9 @@ class Theory:
         assert isinstance(prf, Proof), "check_proof"
         for seq in prf.items:
             self._check_proof_item(prf, seq, rpt, no_gaps, compute_only, check_level)
+
+        if prf.items[-1].rule == "":
+            raise CheckProofException("last line of the proof is empty")
 
         return prf.items[-1].th
 
